@@ -176,7 +176,18 @@ def make_cfg(rs, tier):
     return cfg
 
 
-setup = _buf.setup
+def setup(w, rg):
+    yield from _buf.setup(w, rg)
+    cfg = w.cfg
+    fam = cfg["family"]
+    if fam.endswith("Attr") and not cfg.get("p_fault") and rg.random() < 0.3:
+        # one more file of the PARENT class family (BufferedJSONAttrDict derives from BufferedJSONDict ...): every concrete
+        # class has its own buffer and its own size counter, whatever its ancestors are doing at the same time
+        from ..core.values import gen_value
+        k = cfg["kinds"][0]
+        yield {"t": "new_res", "family": fam[:-4], "kind": k, "init": gen_value(rg, w.fresh, 2, k, 3)}
+        yield {"t": "new_obj", "rid": cfg["nres"], "wc": cfg["wc"]}
+        w.probe("parent_family_resource")
 
 
 def gen_step(w, rg):
